@@ -58,6 +58,7 @@ type thread struct {
 	started bool
 	nops    int
 	lastRun int
+	touches int
 	// rendezvous slots
 	slot   interface{}
 	slotOK bool
@@ -473,8 +474,24 @@ func Yield(label string) {
 	s.point(&pendingOp{kind: opYield, label: label})
 }
 
-// Touch is a scheduling point in front of an access to shared package-level state.
-func Touch(name string) { Yield(name) }
+// Touch is a scheduling point in front of an access to shared package-level state. Only the first
+// MaxTouches touches of a thread are scheduling points (a scratch buffer filled in a loop would
+// otherwise make the execution tree unbounded).
+func Touch(name string) {
+	s := cur
+	if s == nil || s.finished || s.running == nil {
+		return
+	}
+	t := s.running
+	if t.touches >= MaxTouches {
+		return
+	}
+	t.touches++
+	s.point(&pendingOp{kind: opYield, label: name})
+}
+
+// MaxTouches bounds the Touch scheduling points per thread.
+var MaxTouches = 64
 
 // Choose is an environment choice point with n alternatives; choice 0 is the default answer.
 func Choose(n int) int {
